@@ -111,15 +111,28 @@ Theorem C04_unit_variant_wire :
     ser_enum T ser TagUntagged vs (REnum i RUnit) = Some JNull.
 Proof. exact c04_unit_variant_wire_lemma. Qed.
 
-(* ---- a missing Option member without `default` is None *)
+(* ---- a missing Option member without `default` is None.  (IR/Serde.v [missing]: an
+   absent member without default is accepted exactly when its type reads null as
+   the bare None; for the abstract deserialiser [de] of this statement that is a
+   hypothesis, for the real one it holds: C04_option_field_missing_none_de.) *)
 Theorem C04_option_field_missing_none :
   forall (T : space) (de : id -> json -> option rval) (dflt : id -> option rval)
          (p : prop) (r : list prop) (kvs : list (ustring * json)) (w : ustring) (t : id) xs,
     p_state p = PRequired -> get_det T (p_ty p) = Some (DOption t) ->
+    de (p_ty p) JNull = Some ROptNone ->
     wire_name p = Some w -> assoc w kvs = None ->
     de_named T de dflt r kvs = Some xs ->
     de_named T de dflt (p :: r) kvs = Some ((p_name p, ROptNone) :: xs).
 Proof. exact option_member_missing. Qed.
+
+Theorem C04_option_field_missing_none_de :
+  forall re native (T : space) (f : nat) (dflt : id -> option rval)
+         (p : prop) (r : list prop) (kvs : list (ustring * json)) (w : ustring) (t : id) xs,
+    p_state p = PRequired -> get_det T (p_ty p) = Some (DOption t) ->
+    wire_name p = Some w -> assoc w kvs = None ->
+    de_named T (Serde.de re native T (S f)) dflt r kvs = Some xs ->
+    de_named T (Serde.de re native T (S f)) dflt (p :: r) kvs = Some ((p_name p, ROptNone) :: xs).
+Proof. exact option_member_missing_de. Qed.
 
 (* ---- skip_serializing_if = "Option::is_none": None is not written, and read back as None *)
 Theorem C04_skip_none_roundtrip :
